@@ -36,6 +36,41 @@ type c12Entry struct {
 	want string // the OS method that must have served the call
 }
 
+// c12ArgMethods: entries whose script arguments must reach the host OS method
+// unchanged: entry name -> list of (method, indices of the script arguments
+// that form the method's string parameters).
+type c12ArgSpec struct {
+	method string
+	idx    []int
+}
+
+var c12ArgMethods = map[string][]c12ArgSpec{
+	"os.chdir":                  {{"Chdir", []int{0}}},
+	"os.mkdir":                  {{"Mkdir", []int{0}}},
+	"os.mkdir_all":              {{"MkdirAll", []int{0}}},
+	"os.remove":                 {{"Remove", []int{0}}},
+	"os.remove_all":             {{"RemoveAll", []int{0}}},
+	"os.open":                   {{"Open", []int{0}}},
+	"os.create":                 {{"Create", []int{0}}},
+	"os.rename":                 {{"Rename", []int{0, 1}}},
+	"os.symlink":                {{"Symlink", []int{0, 1}}},
+	"os.stat":                   {{"Stat", []int{0}}},
+	"os.getenv":                 {{"Getenv", []int{0}}},
+	"os.setenv":                 {{"Setenv", []int{0, 1}}},
+	"os.unsetenv":               {{"Unsetenv", []int{0}}},
+	"os.read_file":              {{"ReadFile", []int{0}}},
+	"os.write_file":             {{"WriteFile", []int{0}}},
+	"os.read_dir":               {{"ReadDir", []int{0}}},
+	"os.mkdir_temp":             {{"MkdirTemp", []int{0, 1}}},
+	"os.mkdir_temp-default-dir": {{"MkdirTemp", []int{0, 1}}},
+	"os.lookup_user":            {{"LookupUser", []int{0}}},
+	"os.lookup_uid":             {{"LookupUid", []int{0}}},
+	"os.lookup_group":           {{"LookupGroup", []int{0}}},
+	"os.lookup_gid":             {{"LookupGid", []int{0}}},
+	"cat":                       {{"ReadFile", []int{0}}},
+	"cp":                        {{"ReadFile", []int{0}}, {"WriteFile", []int{1}}},
+}
+
 func strArg(s string) object.Object { return object.NewString(s) }
 
 // symPath: "/" followed by one symbolic byte, or a fixed existing path
@@ -79,6 +114,7 @@ var c12Entries = []c12Entry{
 	{"os.getuid", modos.Getuid, func() []object.Object { return nil }, "Getuid"},
 	{"os.hostname", modos.Hostname, func() []object.Object { return nil }, "Hostname"},
 	{"os.mkdir_temp", modos.MkdirTemp, func() []object.Object { return []object.Object{strArg("/d"), strArg("p")} }, "MkdirTemp"},
+	{"os.mkdir_temp-default-dir", modos.MkdirTemp, func() []object.Object { return []object.Object{strArg(""), strArg("p" + verifrt.String(1))} }, "MkdirTemp"},
 	{"os.exit", modos.Exit, func() []object.Object { return []object.Object{object.NewInt(verifrt.Int64())} }, "Exit"},
 	{"os.current_user", modos.CurrentUser, func() []object.Object { return nil }, "CurrentUser"},
 	{"os.lookup_user", modos.LookupUser, func() []object.Object { return []object.Object{strArg("u")} }, "LookupUser"},
@@ -153,11 +189,25 @@ func HarnessC12HostOSMediatesEverything() {
 	got, found := ros.GetOS(ctx)
 	verifrt.Assert(found && got == ros.OS(rec), "context-carries-the-host-os")
 	e := c12Entries[verifrt.Choose(len(c12Entries))]
-	rec.calls = nil
-	res := e.fn(ctx, e.args()...)
+	rec.calls, rec.args = nil, nil
+	args := e.args()
+	res := e.fn(ctx, args...)
 	_ = res
 	verifrt.Reach("called")
 	verifrt.Assert(rec.used(e.want), e.name+":served-by-host-os")
+	// the host OS is handed exactly the script's arguments
+	for _, spec := range c12ArgMethods[e.name] {
+		want := spec.method + ":"
+		for k, i := range spec.idx {
+			if k > 0 {
+				want += "|"
+			}
+			if sv, ok := args[i].(*object.String); ok {
+				want += sv.Value()
+			}
+		}
+		verifrt.Assert(rec.got(want), e.name+":host-os-"+spec.method+"-receives-the-script-arguments")
+	}
 }
 
 // HarnessC12FileObjectsUseHostFiles: file objects handed out by open() read
